@@ -143,6 +143,7 @@ static int deliver(struct xcm_socket *from, struct xcm_socket *to, const char *m
     return 0;
 }
 
+static struct xcm_socket *srvs[8]; static char srv_proto[8][16]; static struct pair pairs[16];
 static void close_pair(struct pair *p) { if (p->cli) xcm_close(p->cli); if (p->acc) xcm_close(p->acc); p->cli = p->acc = NULL; }
 
 static void peer_desc(struct xcm_socket *s, char *out, size_t cap)
@@ -261,7 +262,83 @@ int main(void)
 	    fprintf(o, "server=ok client=%s accepted=%s c2s=%d(%s) s2c=%d(%s) cli_sees=%s acc_sees=%s\n", p.cli_st, p.acc_st, c2s, why1, s2c, why2, pc, pa);
 	    close_pair(&p);
 	    xcm_close(srv);
-	} else if (!strcmp(w[0], "RESUME") && n == 5) {
+	} else if (!strcmp(w[0], "SRV") && n == 4) {
+	    /* SRV <id> <proto> <attrs>: a server socket that stays */
+	    int id = atoi(w[1]) % 8;
+	    char addr[300]; snprintf(addr, sizeof(addr), "%s:127.0.0.1:0", w[2]);
+	    struct xcm_attr_map *sm = sys_base_attrs(w[2], true); apply_attrs(sm, w[3]);
+	    if (srvs[id]) xcm_close(srvs[id]);
+	    srvs[id] = xcm_server_a(addr, sm); int se = errno;
+	    snprintf(srv_proto[id], sizeof(srv_proto[id]), "%s", w[2]);
+	    xcm_attr_map_destroy(sm);
+	    fprintf(o, "server=%s\n", srvs[id] ? "ok" : h_errname(se));
+	} else if (!strcmp(w[0], "CON") && n == 6) {
+	    /* CON <pair> <server id> <host> <accept attrs> <client attrs> */
+	    int pid = atoi(w[1]) % 16, sid = atoi(w[2]) % 8;
+	    if (!srvs[sid]) { fputs("no-server\n", o); fflush(o); continue; }
+	    close_pair(&pairs[pid]);
+	    connect_pair(&pairs[pid], srv_proto[sid], srvs[sid], w[4], w[5], w[3]);
+	    struct pair *p = &pairs[pid];
+	    char why1[64], why2[64];
+	    int c2s = deliver(p->cli, p->acc, "ping-from-client", why1, sizeof(why1));
+	    int s2c = deliver(p->acc, p->cli, "ping-from-server", why2, sizeof(why2));
+	    char pc[600], pa[600]; peer_desc(p->cli_ok ? p->cli : NULL, pc, sizeof(pc)); peer_desc(p->acc_ok ? p->acc : NULL, pa, sizeof(pa));
+	    fprintf(o, "server=ok client=%s accepted=%s c2s=%d(%s) s2c=%d(%s) cli_sees=%s acc_sees=%s\n", p->cli_st, p->acc_st, c2s, why1, s2c, why2, pc, pa);
+	} else if (!strcmp(w[0], "PING") && n == 2) {
+	    struct pair *p = &pairs[atoi(w[1]) % 16];
+	    char why1[64], why2[64];
+	    int c2s = deliver(p->cli, p->acc, "ping-from-client", why1, sizeof(why1));
+	    int s2c = deliver(p->acc, p->cli, "ping-from-server", why2, sizeof(why2));
+	    char pc[600], pa[600]; peer_desc(p->cli, pc, sizeof(pc)); peer_desc(p->acc, pa, sizeof(pa));
+	    fprintf(o, "c2s=%d(%s) s2c=%d(%s) cli_sees=%s acc_sees=%s\n", c2s, why1, s2c, why2, pc, pa);
+	} else if (!strcmp(w[0], "CLOSE") && n == 2) { close_pair(&pairs[atoi(w[1]) % 16]); fputs("ok\n", o); }
+	else if (!strcmp(w[0], "CLOSESRV") && n == 2) { int id = atoi(w[1]) % 8; if (srvs[id]) xcm_close(srvs[id]); srvs[id] = NULL; fputs("ok\n", o); }
+	else if (!strcmp(w[0], "GARB") && n == 4) {
+	    /* GARB <proto> <hex garbage> <chunk>: an established connection B idles while, in the same thread, a raw peer writes garbage
+	       instead of a TLS handshake on a new connection A; the next operations on B are ones that would block */
+	    const char *proto = w[1];
+	    char addr[300]; snprintf(addr, sizeof(addr), "%s:127.0.0.1:0", proto);
+	    struct xcm_attr_map *sm = sys_base_attrs(proto, true);
+	    struct xcm_socket *srv = xcm_server_a(addr, sm); xcm_attr_map_destroy(sm);
+	    if (!srv) { fprintf(o, "fail server %s\n", h_errname(errno)); fflush(o); continue; }
+	    struct pair b; connect_pair(&b, proto, srv, "-", "-", "127.0.0.1");
+	    if (!b.cli_ok || !b.acc_ok) { fprintf(o, "fail establish %s %s\n", b.cli_st, b.acc_st); close_pair(&b); xcm_close(srv); fflush(o); continue; }
+	    char buf[256];
+	    /* drain whatever the handshake left (session tickets) so that B is idle */
+	    for (int i = 0; i < 50; i++) { xcm_receive(b.cli, buf, sizeof(buf)); xcm_receive(b.acc, buf, sizeof(buf)); xcm_finish(b.cli); xcm_finish(b.acc); usleep(200); }
+	    size_t glen; uint8_t *g = h_unhex(w[2], &glen); size_t chunk = atoi(w[3]) > 0 ? (size_t)atoi(w[3]) : glen;
+	    int fd = raw_connect_tcp(xcm_local_addr(srv));
+	    char a_st[64] = "none"; struct xcm_socket *a = NULL; size_t off = 0; bool a_done = false;
+	    for (int i = 0; i < 400 && !a_done; i++) {
+		if (off < glen) { size_t k = glen - off < chunk ? glen - off : chunk; ssize_t wr = write(fd, g + off, k); if (wr > 0) off += wr; }
+		if (!a) {
+		    struct xcm_attr_map *am = xcm_attr_map_create(); xcm_attr_map_add_bool(am, "xcm.blocking", false);
+		    a = xcm_accept_a(srv, am); int ae = errno; xcm_attr_map_destroy(am);
+		    if (!a && ae != EAGAIN) { snprintf(a_st, sizeof(a_st), "accept:%s", h_errname(ae)); a_done = true; }
+		} else {
+		    /* a messaging transport reads the garbage through xcm_receive, a handshake through xcm_finish */
+		    int rc = xcm_finish(a); int e = errno;
+		    if (rc < 0 && e != EAGAIN) { snprintf(a_st, sizeof(a_st), "%s", h_errname(e)); a_done = true; }
+		    else if (rc == 0) { snprintf(a_st, sizeof(a_st), "ok"); a_done = true; }
+		}
+		if (a_done) break;
+		usleep(200);
+	    }
+	    /* immediately: operations on B that would block */
+	    int r1 = xcm_receive(b.acc, buf, sizeof(buf)); int e1 = errno;
+	    int r2 = xcm_receive(b.cli, buf, sizeof(buf)); int e2 = errno;
+	    int f1 = xcm_finish(b.acc); int e3 = errno;
+	    char why1[64], why2[64];
+	    int c2s = deliver(b.cli, b.acc, "ping-from-client", why1, sizeof(why1));
+	    int s2c = deliver(b.acc, b.cli, "ping-from-server", why2, sizeof(why2));
+	    fprintf(o, "garbage=%s b_acc_recv=%s b_cli_recv=%s b_acc_finish=%s c2s=%d(%s) s2c=%d(%s)\n", a_st,
+		    r1 < 0 ? h_errname(e1) : r1 == 0 ? "closed" : "data", r2 < 0 ? h_errname(e2) : r2 == 0 ? "closed" : "data",
+		    f1 == 0 ? "ok" : h_errname(e3), c2s, why1, s2c, why2);
+	    if (a) xcm_close(a);
+	    close(fd); free(g);
+	    close_pair(&b); xcm_close(srv);
+	}
+	else if (!strcmp(w[0], "RESUME") && n == 5) {
 	    /* RESUME <proto> <server attrs (both servers)> <extra attrs of server 2> <raw client cert>: a non-XCM peer completes a
 	       handshake with server 1, keeps the session (ticket) and offers it to server 2, which shares server 1's credentials
 	       but has a stricter policy */
